@@ -152,40 +152,52 @@ pub fn bounds_case(tkind: TKind, window: Option<usize>) -> BoundsOut {
 // ------------------------------------------------------------------------------------------
 // (b) torn reads
 
+/// Two sequences over the generations such that every (a, b) pair is new while each component
+/// returns to an earlier value: a = 0,1,0,2,0,3,... and b = 0,1,2,1,3,1,... A reader that
+/// validates a multi-field value by re-reading one of its parts (instead of the generation) is
+/// fooled by two or three updates.
+pub fn seq_a(g: u32) -> u32 {
+    if g % 2 == 0 { 0 } else { (g + 1) / 2 }
+}
+pub fn seq_b(g: u32) -> u32 {
+    if g == 0 { 0 } else if g % 2 == 1 { 1 } else { g / 2 + 1 }
+}
+
 pub fn config_for(kind: Kind, g: u32) -> Vec<u8> {
-    let g8 = g as u8;
+    let (a, b) = (seq_a(g), seq_b(g));
     match kind {
         Kind::Blk => {
             let mut c = Kind::Blk.default_config();
-            // Even generations: a disk below 2^32 sectors (upper half zero); odd generations: a
-            // large one. A resize thus crosses the 2^32 boundary in both directions.
-            c[0..4].copy_from_slice(&(0x1111_0000u32 + g).to_le_bytes());
-            c[4..8].copy_from_slice(&(if g % 2 == 0 { 0 } else { 0x2222_0000u32 + g }).to_le_bytes());
+            // The upper half is zero in every other generation (a disk below 2^32 sectors): a
+            // resize crosses the 2^32 boundary in both directions.
+            c[0..4].copy_from_slice(&(0x1111_0000u32 + b).to_le_bytes());
+            c[4..8].copy_from_slice(&(if a == 0 { 0 } else { 0x2222_0000u32 + a }).to_le_bytes());
             c
         }
         Kind::Socket => {
             let mut c = vec![0u8; 8];
-            c[0..4].copy_from_slice(&(0x100 + g).to_le_bytes());
-            c[4..8].copy_from_slice(&(0x200 + g).to_le_bytes());
+            c[0..4].copy_from_slice(&(0x100 + a).to_le_bytes());
+            c[4..8].copy_from_slice(&(0x200 + b).to_le_bytes());
             c
         }
         Kind::Console => {
             let mut c = Kind::Console.default_config();
-            c[0..2].copy_from_slice(&(80u16 + g as u16).to_le_bytes());
-            c[2..4].copy_from_slice(&(24u16 + g as u16).to_le_bytes());
+            c[0..2].copy_from_slice(&(80u16 + a as u16).to_le_bytes());
+            c[2..4].copy_from_slice(&(24u16 + b as u16).to_le_bytes());
             c
         }
         Kind::NetRaw => {
             let mut c = Kind::NetRaw.default_config();
-            c[0..6].copy_from_slice(&[0x52, g8, g8.wrapping_add(0x10), g8.wrapping_add(0x20), g8.wrapping_add(0x30), g8.wrapping_add(0x40)]);
+            let (a8, b8) = (a as u8, b as u8);
+            c[0..6].copy_from_slice(&[0x52, a8, b8.wrapping_add(0x10), a8.wrapping_add(0x20), b8.wrapping_add(0x30), a8.wrapping_add(0x40)]);
             c
         }
         Kind::P9 => {
             let mut c = vec![0u8; 8];
-            let len = 3 + (g % 3) as usize;
+            let len = 3 + (a % 3) as usize;
             c[0..2].copy_from_slice(&(len as u16).to_le_bytes());
             for i in 0..len {
-                c[2 + i] = b'a' + g8;
+                c[2 + i] = b'a' + b as u8;
             }
             c
         }
